@@ -53,6 +53,7 @@ def dump(repo: str) -> dict:
     from pyplumio.devices import Device, PhysicalDevice
     from pyplumio.devices import ecomax as dev_ecomax
     from pyplumio.helpers import data_types, parameter
+    from pyplumio.helpers import uid as uid_helper
     from pyplumio.structures import (
         ecomax_parameters,
         mixer_parameters,
@@ -115,7 +116,10 @@ def dump(repo: str) -> dict:
         "byteUndefined": const.BYTE_UNDEFINED,
         "scheduleSize": schedules.SCHEDULE_SIZE,
         "bitarrayLastIndex": data_types.BITARRAY_LAST_INDEX,
+        "uidCrc": uid_helper.CRC,
+        "uidPolynomial": uid_helper.POLYNOMIAL,
     }
+    out["base5_key"] = str(uid_helper.BASE5_KEY)
     tol = Fraction(filters.TOLERANCE)
     out["tolerance"] = [tol.numerator, tol.denominator]
     out["tolerance_repr"] = repr(filters.TOLERANCE)
@@ -237,6 +241,10 @@ def emit_lean(d: dict) -> dict[str, str]:
             [f"({lean_str(n)}, {lean_str(f)}, {z})" for n, f, z in d["struct_formats"]], 3
         )
         + "\n\n"
+    )
+    body += (
+        "/-- helpers/uid.py BASE5_KEY: the base-32 alphabet of the UID text -/\n"
+        f"def base5Key : String := {lean_str(d['base5_key'])}\n\n"
     )
     body += "def schedules : List String := " + lean_list(
         [lean_str(x) for x in d["schedules"]], 5
